@@ -509,6 +509,95 @@ pub fn same_set_streams(ctx: &Ctx, base: u64, key_prefix: &str) -> (u64, Vec<Val
     (evals, details)
 }
 
+/// The estimate users read is the crate's own: all four estimator entry points of both sketcher families against the
+/// count of equal positions of the two sketches, for every pair of non-empty subsets of a small identifier alphabet that
+/// contains the boundary identifiers 0 and u64::MAX (pre-hashed through the no-op hasher: slots may hold the value 0).
+fn estimator_pass(ctx: &Ctx) -> u64 {
+    let alphabet: [u64; 5] = [0, 1, 2, 3, u64::MAX];
+    let subsets: Vec<Vec<u64>> = (1u32..32).map(|mask| (0..5).filter(|i| mask >> i & 1 == 1).map(|i| alphabet[i as usize]).collect()).collect();
+    let mut n = 0u64;
+    fn report(ctx: &Ctx, kind: &str, m: usize, a: &[u64], b: &[u64], which: &str, got: String, want: f64) {
+        ctx.violation(
+            &format!("C03-estimator:{}", kind),
+            &format!("{} m={} sets {:?} / {:?}: {} returns {} but {} of the sketch positions agree", kind, m, a, b, which, got, want),
+            json!({"kind": "estimator", "sketcher": kind, "m": m, "a": a.iter().map(|x| x.to_string()).collect::<Vec<_>>(), "b": b.iter().map(|x| x.to_string()).collect::<Vec<_>>()}),
+        );
+    }
+    for &m in &[1usize, 2, 3, 8] {
+        for a in &subsets {
+            for b in &subsets {
+                n += 1;
+                // SuperMinHash2<u64, NoHash> and <u64, Fnv>
+                macro_rules! smh2 {
+                    ($h:ty, $label:expr) => {{
+                        let r = guarded_mut(|| {
+                            let mut sa = SuperMinHash2::<u64, u64, $h>::new(m, BuildHasherDefault::<$h>::default());
+                            let mut sb = SuperMinHash2::<u64, u64, $h>::new(m, BuildHasherDefault::<$h>::default());
+                            sa.sketch_slice(a).unwrap();
+                            sb.sketch_slice(b).unwrap();
+                            let (ha, hb) = (sa.get_hsketch().clone(), sb.get_hsketch().clone());
+                            let want = ha.iter().zip(hb.iter()).filter(|(x, y)| x == y).count() as f64 / m as f64;
+                            let e1 = sa.get_jaccard_index_estimate(&hb).map_err(|_| "Err".to_string());
+                            let e2 = probminhash::superminhasher2::compute_superminhash_jaccard(&ha, &hb).map(|x| x as f64).map_err(|_| "Err".to_string());
+                            let e3 = probminhash::superminhasher2::get_jaccard_index_estimate(&ha, &hb).map(|x| x as f64).map_err(|_| "Err".to_string());
+                            (want, e1, e2, e3)
+                        });
+                        match r {
+                            Err(p) => report(ctx, $label, m, a, b, "sketching / estimating", format!("panic {}", p), f64::NAN),
+                            Ok((want, e1, e2, e3)) => {
+                                for (which, e) in [("SuperMinHash2::get_jaccard_index_estimate", e1), ("superminhasher2::compute_superminhash_jaccard", e2), ("superminhasher2::get_jaccard_index_estimate", e3)] {
+                                    match e {
+                                        Ok(x) if (x - want).abs() <= 1e-6 => {}
+                                        other => report(ctx, $label, m, a, b, which, format!("{:?}", other), want),
+                                    }
+                                }
+                                if a == b && want != 1. {
+                                    report(ctx, $label, m, a, b, "two sketches of the same set", "different sketches".into(), want);
+                                }
+                            }
+                        }
+                    }};
+                }
+                smh2!(NoHashHasher, "SuperMinHash2<u64,NoHash>");
+                smh2!(FnvHasher, "SuperMinHash2<u64,Fnv>");
+                macro_rules! smh {
+                    ($f:ty, $h:ty, $label:expr) => {{
+                        let r = guarded_mut(|| {
+                            let mut sa = SuperMinHash::<$f, u64, $h>::new(m, BuildHasherDefault::<$h>::default());
+                            let mut sb = SuperMinHash::<$f, u64, $h>::new(m, BuildHasherDefault::<$h>::default());
+                            sa.sketch_slice(a).unwrap();
+                            sb.sketch_slice(b).unwrap();
+                            let (ha, hb) = (sa.get_hsketch().clone(), sb.get_hsketch().clone());
+                            let want = ha.iter().zip(hb.iter()).filter(|(x, y)| x == y).count() as f64 / m as f64;
+                            let e1 = sa.get_jaccard_index_estimate(&hb).map_err(|e| e.to_string());
+                            let e2 = probminhash::superminhasher::compute_superminhash_jaccard(&ha, &hb).map(|x| x as f64).map_err(|e| e.to_string());
+                            let e3 = probminhash::superminhasher::get_jaccard_index_estimate(&ha, &hb).map(|x| x as f64).map_err(|e| e.to_string());
+                            (want, e1, e2, e3)
+                        });
+                        match r {
+                            Err(p) => report(ctx, $label, m, a, b, "sketching / estimating", format!("panic {}", p), f64::NAN),
+                            Ok((want, e1, e2, e3)) => {
+                                for (which, e) in [("SuperMinHash::get_jaccard_index_estimate", e1), ("superminhasher::compute_superminhash_jaccard", e2), ("superminhasher::get_jaccard_index_estimate", e3)] {
+                                    match e {
+                                        Ok(x) if (x - want).abs() <= 1e-6 => {}
+                                        other => report(ctx, $label, m, a, b, which, format!("{:?}", other), want),
+                                    }
+                                }
+                                if a == b && want != 1. {
+                                    report(ctx, $label, m, a, b, "two sketches of the same set", "different sketches".into(), want);
+                                }
+                            }
+                        }
+                    }};
+                }
+                smh!(f64, NoHashHasher, "SuperMinHash<f64,NoHash>");
+                smh!(f32, FnvHasher, "SuperMinHash<f32,Fnv>");
+            }
+        }
+    }
+    4 * n
+}
+
 pub fn run(ctx: &Ctx) -> i32 {
     let base = splitmix64(ctx.seed ^ 0x1e77a) >> 20;
     let nblock = ctx.pick(10usize, 13);
@@ -523,6 +612,9 @@ pub fn run(ctx: &Ctx) -> i32 {
     println!("C03 identity: {} subset triples, {} sketches, {} (triple,view,position) comparisons", totals.0, totals.1, totals.2);
     let mut pdetails = Vec::new();
     let mut evals = 0u64;
+    let est_pairs = estimator_pass(ctx);
+    evals += est_pairs;
+    println!("C03 estimators: {} (sketcher kind, pair of sets, m) cases through the crate's estimator entry points", est_pairs);
     partition_checks(ctx, &mut pdetails, &mut evals);
     // single-item law
     let n_law: u64 = ctx.pick(1 << 16, 1 << 19);
